@@ -111,6 +111,15 @@ CHECKS = {
             "comparing every model's multipliers with the spec's exact rationals after every build and snapshotting every input object.",
             "Integer Mach grid of 5 nodes, 7 point lists, 3 (thorough 4) builds; law compared to 1e-9 (1e-5 for velocity-given points in "
             "non-SI units); shipped tables exercised for the heap clauses only.", "DESIGN.md §4 C14"),
+    "C07": ("TLA+ spec Prefs.tla (15 slots, Coerce for bare/explicit/omitted arguments, API parameter table) model-checked by TLC; "
+            "TLC-generated preference histories replayed on the real PreferredUnits, bare-vs-explicit and explicit-corpus checks in every final state",
+            "TLC checks bare = explicit-in-the-current-unit for every parameter and magnitude (zero included) and explicit arguments "
+            "independent of the slots over all histories; generated histories (assign by attribute/name/Unit, defaults, presets) are "
+            "replayed comparing all 15 slots after every operation; in each final state all 39 API parameters are built from a bare "
+            "number and from the explicit quantity (bit-identical results demanded) and a 14-result explicit-unit corpus must fingerprint "
+            "as under default preferences.",
+            "Histories sampled by TLC simulation; 4 candidate units per dimension; formatted output excluded; zero skipped where meaningless.",
+            "DESIGN.md §4 C07"),
 }
 
 NOT_APPLICABLE = {
